@@ -19,6 +19,8 @@
 // component; fmt / log calls format synchronously and are reads), a tracked
 // struct copied by value, an unkeyed
 // literal of a tracked struct, a tracked field that no longer has any site.
+// Fields of the message types the components send each other are handled
+// separately (see msgStructs).
 //
 // usage: goaccess2v <dir of pkg/cmd>   (run with the module root as cwd)
 package main
@@ -49,6 +51,17 @@ var tracked = []string{
 	"auditionState.curMood", "auditionState.curMoodStart", "auditionState.curVals",
 	"auditor.name", "config.dataDir", "actor.workDir",
 	"workerRegistry.mu.workers", "workerRegistry.mu.numWorkers",
+}
+
+// the messages the components hand to each other over channels: once built
+// (composite literal) their fields may be assigned only by the component that
+// produces them, before the send; receivers only read.  The translator emits
+// every assignment / ++ / address-taking of such a field (and every overwrite
+// of a whole message) as a write site with synchronisation "Msg"; the Coq
+// check requires the enclosing function to run in a producer of the message.
+var msgStructs = map[string]bool{
+	"moodChange": true, "actChange": true, "sigEvent": true, "auditableValue": true,
+	"observation": true, "actionReport": true, "auditionReport": true,
 }
 
 // structs that own tracked cells: may not be copied by value
@@ -342,6 +355,48 @@ climb:
 	fail(t.fset, expr.Pos(), "tracked field %s (an aggregate) is used as a value (aliased) in a way the translator does not understand", cell)
 }
 
+// msgWrite records a selector of a message field when it is written: the left
+// side of an assignment (also through an index), ++/--, or its address taken.
+func (t *tr) msgWrite(cell string, expr ast.Expr, stack []ast.Node, fn string) {
+	var e ast.Expr = expr
+	i := len(stack) - 1
+climb:
+	for i >= 0 {
+		switch p := stack[i].(type) {
+		case *ast.ParenExpr:
+			e = p
+			i--
+			continue
+		case *ast.IndexExpr:
+			if p.X == e {
+				e = p
+				i--
+				continue
+			}
+		}
+		break climb
+	}
+	if i < 0 {
+		return
+	}
+	written := false
+	switch p := stack[i].(type) {
+	case *ast.AssignStmt:
+		for _, l := range p.Lhs {
+			if l == e {
+				written = true
+			}
+		}
+	case *ast.IncDecStmt:
+		written = true
+	case *ast.UnaryExpr:
+		written = p.Op == token.AND
+	}
+	if written {
+		t.sites = append(t.sites, site{cell, "W", "Msg", fn, t.pos(expr.Pos())})
+	}
+}
+
 func recvName(fd *ast.FuncDecl) string {
 	name := fd.Name.Name
 	if fd.Recv != nil && len(fd.Recv.List) > 0 {
@@ -525,9 +580,25 @@ func (t *tr) walkFunc(fd *ast.FuncDecl) {
 			if name != "" {
 				if trackedSet[name] {
 					t.classify(name, x, stack, cur(x.Pos()))
+				} else if msgStructs[name[:strings.Index(name, ".")]] {
+					t.msgWrite(name, x, stack, cur(x.Pos()))
 				} else {
 					// possibly an alias field: decided once all literals are seen
 					t.pend = append(t.pend, pendingAlias{x, append([]ast.Node(nil), stack...), cur(x.Pos())})
+				}
+			}
+		case *ast.AssignStmt:
+			// a whole message overwritten through a pointer or a field
+			if x.Tok != token.DEFINE {
+				for _, l := range x.Lhs {
+					if _, isIdent := l.(*ast.Ident); isIdent {
+						continue // a local variable of message type being (re)built
+					}
+					if tv, ok := t.info.Types[l]; ok && tv.Type != nil {
+						if nm, ok := tv.Type.(*types.Named); ok && nm.Obj().Pkg() != nil && nm.Obj().Pkg().Path() == pkgPath && msgStructs[nm.Obj().Name()] {
+							t.sites = append(t.sites, site{nm.Obj().Name() + ".*", "W", "Msg", cur(x.Pos()), t.pos(l.Pos())})
+						}
+					}
 				}
 			}
 		case *ast.CompositeLit:
@@ -1105,6 +1176,12 @@ func main() {
 		items = append(items, coqStr(c))
 	}
 	sb.WriteString("Definition tracked : list string :=\n  [" + strings.Join(items, ";\n   ") + "].\n\n")
+	var ms []string
+	for m := range msgStructs {
+		ms = append(ms, coqStr(m))
+	}
+	sort.Strings(ms)
+	sb.WriteString("Definition messages : list string := [" + strings.Join(ms, "; ") + "].\n\n")
 	items = nil
 	for _, s := range t.sites {
 		items = append(items, fmt.Sprintf("mk_site %s %s %s %s %s", coqStr(s.cell), s.kind, s.sync, coqStr(s.fn), coqStr(s.pos)))
